@@ -26,7 +26,9 @@ def insertByKey (key : Nat → List Int) (i : Nat) : List Nat → List Nat
   | [] => [i]
   | j :: js => if lexLt (key i) (key j) then i :: j :: js else j :: insertByKey key i js
 
-/-- `sorted(range(n), key=...)` (stable) -/
+/-- `sorted(range(n), key=...)`. Tied keys come out in DESCENDING index order here whereas Python's `sorted` is stable;
+    ties cannot occur inside `compute_sg_permutations` because `_find_optimal_decimals` demands pairwise distinct
+    rounded positions (`positionsDistinct`), and no theorem or correspondence check depends on the order of ties. -/
 def argsortBy (key : Nat → List Int) (n : Nat) : List Nat :=
   (List.range n).reverse.foldl (fun acc i => insertByKey key i acc) []
 
